@@ -1,7 +1,274 @@
-//! mvh_bin — not built yet.
+//! mvh_bin — bin archive: file format (C01, C02) and state machine (C03, C04) conformance.
+//!   format-replay <cases.ndjson> <out.ndjson>      spec -> impl for C01/C02 (cases from Gen_BinFormat)
+//!   format-record <out.ndjson> <n> <maxcells>      impl -> spec: random contents, their image and re-parse
+//!   dump <file> <le|be> <out.ndjson>               project a file from disk as a format event
+//!   sm-replay / sm-record                           see below (state machine)
+use mila::{BinArchive, BinArchiveReader, BinArchiveWriter, Endian};
+use mvh::proj::*;
 use mvh::util::*;
+use serde_json::{json, Value};
+
+// ------------------------------------------------------------------------------------------------
+// format: C01 / C02
+// ------------------------------------------------------------------------------------------------
+
+/// cells of `expected` that hold a pointer of any kind: raw bytes there are not compared
+fn masked_equal(got: &Value, expected: &Value) -> Result<(), String> {
+    for k in ["endian", "text", "ptrs", "labels"] {
+        if got[k] != expected[k] {
+            return Err(format!("{} differs: got {} expected {}", k, got[k], expected[k]));
+        }
+    }
+    let g = json_to_bytes(&got["data"]);
+    let e = json_to_bytes(&expected["data"]);
+    if g.len() != e.len() {
+        return Err(format!("size differs: got {} expected {}", g.len(), e.len()));
+    }
+    let mut mask = vec![false; e.len()];
+    for k in ["text", "ptrs"] {
+        for cell in expected[k].as_array().unwrap() {
+            let a = cell[0].as_u64().unwrap() as usize;
+            for i in a..(a + 4).min(e.len()) {
+                mask[i] = true;
+            }
+        }
+    }
+    for i in 0..e.len() {
+        if !mask[i] && g[i] != e[i] {
+            return Err(format!("raw byte {} differs: got {} expected {}", i, g[i], e[i]));
+        }
+    }
+    Ok(())
+}
+
+fn cstr_readback(b: &BinArchive, content: &Value) -> Result<(), String> {
+    for c in content["cstr"].as_array().unwrap() {
+        let a = c[0].as_u64().unwrap() as usize;
+        let want = sjis_to_string(&json_to_bytes(&c[1]));
+        match b.read_c_string(a) {
+            Ok(Some(s)) if s == want => {}
+            other => return Err(format!("read_c_string({}) = {:?}, expected {:?}", a, other.map_err(|e| e.to_string()), want)),
+        }
+    }
+    Ok(())
+}
+
+fn parse_and_compare(bytes: &[u8], content: &Value, reparsed: &Value) -> Result<(), String> {
+    let e = content["endian"].as_str().unwrap();
+    let b = BinArchive::from_bytes(bytes, endian_of(&content["endian"])).map_err(|x| format!("from_bytes: {}", x))?;
+    masked_equal(&project(&b, e), reparsed)?;
+    cstr_readback(&b, content)
+}
+
+fn format_replay(cases_path: &str, out_path: &str) {
+    let cases = read_ndjson(cases_path);
+    let mut out = NdWriter::create(out_path);
+    let mut rng = Rng::new(seed_from_env());
+    let builds = if tier_is_quick() { 4 } else { 16 };
+    let (mut n, mut c01_checks, mut c02_checks) = (0u64, 0u64, 0u64);
+    for (i, c) in cases.iter().enumerate() {
+        n += 1;
+        let content = &c["content"];
+        let has_cstr = !content["cstr"].as_array().unwrap().is_empty();
+        let exact = c["exact"].as_bool().unwrap();
+        let canon = json_to_bytes(&c["canon"]);
+        // several builds with different call orders and fresh instances (fresh hash states)
+        let mut images: Vec<Vec<u8>> = Vec::new();
+        let mut failed = false;
+        for _ in 0..builds {
+            let mut steps = steps_of(content);
+            shuffle_steps(&mut steps, &mut rng);
+            let r = catch(|| -> Result<Vec<u8>, String> {
+                let a = build_with(content, &steps)?;
+                let want = {
+                    let mut p = content.clone();
+                    p["cstr"] = json!([]);
+                    p
+                };
+                if project(&a, content["endian"].as_str().unwrap()) != want {
+                    return Err(format!("harness: built archive does not project to the content: {}", project(&a, "?")));
+                }
+                a.serialize().map_err(|e| format!("serialize: {}", e))
+            });
+            match r {
+                Ok(Ok(b)) => images.push(b),
+                Ok(Err(e)) if e.starts_with("harness:") => {
+                    out.put(&json!({"kind": "unbuildable", "i": i, "why": e}));
+                    failed = true;
+                    break;
+                }
+                Ok(Err(e)) | Err(e) => {
+                    out.put(&json!({"kind": "mismatch", "prop": "C01", "what": "serialize-failed", "i": i, "why": e, "content": content}));
+                    failed = true;
+                    break;
+                }
+            }
+        }
+        if failed {
+            continue;
+        }
+        // C01 (1): serialize -> parse shows the same content
+        c01_checks += 1;
+        match catch(|| parse_and_compare(&images[0], content, &c["reparsed"])) {
+            Ok(Ok(())) => {}
+            Ok(Err(e)) | Err(e) => out.put(&json!({"kind": "mismatch", "prop": "C01", "what": "roundtrip", "i": i, "why": e,
+                "content": content, "image": bytes_to_json(&images[0]), "has_cstr": has_cstr,
+                "mixed": has_cstr && !content["text"].as_array().unwrap().is_empty()})),
+        }
+        // C01 (2): every conforming layout parses to the same content
+        for (li, l) in c["layouts"].as_array().unwrap().iter().enumerate() {
+            c01_checks += 1;
+            let lb = json_to_bytes(l);
+            match catch(|| parse_and_compare(&lb, content, &c["reparsed"])) {
+                Ok(Ok(())) => {}
+                Ok(Err(e)) | Err(e) => {
+                    out.put(&json!({"kind": "mismatch", "prop": "C01", "what": "layout", "i": i, "layout": li, "why": e,
+                        "content": content, "image": l, "has_cstr": has_cstr}))
+                }
+            }
+        }
+        // C02: determinism over call orders / instances; canonical image; parse+serialize idempotent
+        if !has_cstr {
+            c02_checks += 1;
+            if images.iter().any(|b| b != &images[0]) {
+                let other = images.iter().find(|b| *b != &images[0]).unwrap();
+                out.put(&json!({"kind": "mismatch", "prop": "C02", "what": "nondeterministic", "i": i, "content": content,
+                    "endian": content["endian"], "tie": !exact, "a": bytes_to_json(&images[0]), "b": bytes_to_json(other)}));
+            } else if exact && images[0] != canon {
+                out.put(&json!({"kind": "mismatch", "prop": "C02", "what": "not-canonical", "i": i, "content": content,
+                    "got": bytes_to_json(&images[0]), "canon": c["canon"]}));
+            }
+            if exact {
+                let r = catch(|| -> Result<Vec<u8>, String> {
+                    let b = BinArchive::from_bytes(&canon, endian_of(&content["endian"])).map_err(|e| e.to_string())?;
+                    b.serialize().map_err(|e| e.to_string())
+                });
+                match r {
+                    Ok(Ok(b)) if b == canon => {}
+                    other => out.put(&json!({"kind": "mismatch", "prop": "C02", "what": "reserialize", "i": i, "content": content,
+                        "got": format!("{:?}", other)})),
+                }
+            }
+        }
+    }
+    out.put(&json!({"kind": "summary", "cases": n, "c01_checks": c01_checks, "c02_checks": c02_checks}));
+    out.finish();
+}
+
+const STRS: &[&str] = &["", "A", "BC", "ｱ", "あ", "ソ", "表", "Hello", "AB", "label", "Count", "日本語ソ", "x\\n"];
+
+fn random_content(rng: &mut Rng, maxcells: usize, allow_cstr: bool) -> Value {
+    let endian = if rng.chance(1, 2) { "le" } else { "be" };
+    let cells = rng.below(maxcells + 1);
+    let extra = if rng.chance(1, 4) { rng.range(1, 3) } else { 0 }; // unaligned tail
+    let size = cells * 4 + extra;
+    let data = rng.bytes(size);
+    let (mut text, mut ptrs, mut cstr) = (vec![], vec![], vec![]);
+    let nstr = rng.range(1, STRS.len());
+    for cidx in 0..cells {
+        let a = cidx * 4;
+        match rng.below(10) {
+            0 | 1 => text.push(json!([a, string_to_sjis(STRS[rng.below(nstr)]).unwrap()])),
+            2 | 3 => ptrs.push(json!([a, if rng.chance(1, 5) { size } else { rng.below(size + 1) }])),
+            4 if allow_cstr => cstr.push(json!([a, string_to_sjis(STRS[rng.below(nstr)]).unwrap()])),
+            _ => {}
+        }
+    }
+    let mut laddrs: Vec<usize> = Vec::new();
+    let nl = rng.below(cells + 2);
+    for _ in 0..nl {
+        let a = match rng.below(6) {
+            0 => size,
+            1 => rng.below(size + 1),
+            _ => (rng.below(cells + 1) * 4).min(size),
+        };
+        if !laddrs.contains(&a) {
+            laddrs.push(a);
+        }
+    }
+    laddrs.sort();
+    // big-endian ordering is only determined when first names are distinct ASCII: generate both kinds
+    let distinct_names = rng.chance(2, 3);
+    let labels: Vec<Value> = laddrs
+        .iter()
+        .enumerate()
+        .map(|(i, a)| {
+            let k = if rng.chance(1, 4) { 2 } else { 1 };
+            let names: Vec<Value> = (0..k)
+                .map(|j| {
+                    let s = if distinct_names && j == 0 { format!("L{:03}", i) } else { STRS[rng.below(STRS.len())].to_string() };
+                    json!(string_to_sjis(&s).unwrap())
+                })
+                .collect();
+            json!([a, names])
+        })
+        .collect();
+    json!({"endian": endian, "data": data, "text": text, "ptrs": ptrs, "labels": labels, "cstr": cstr})
+}
+
+fn format_event(content: &Value, from_api: bool) -> Value {
+    let e = content["endian"].as_str().unwrap();
+    let r = catch(|| -> Result<Value, String> {
+        let a = build(content)?;
+        let bytes = a.serialize().map_err(|x| format!("serialize: {}", x))?;
+        let b = BinArchive::from_bytes(&bytes, endian_of(&content["endian"])).map_err(|x| format!("from_bytes: {}", x))?;
+        let mut cread = vec![];
+        for c in content["cstr"].as_array().unwrap() {
+            let addr = c[0].as_u64().unwrap() as usize;
+            match b.read_c_string(addr) {
+                Ok(Some(s)) => cread.push(json!([addr, string_to_sjis(&s).unwrap_or_default()])),
+                _ => cread.push(json!([addr, [0]])),
+            }
+        }
+        let again = b.serialize().map_err(|x| format!("serialize(2): {}", x))?;
+        Ok(json!({"bytes": bytes, "reparsed": project(&b, e), "cstr_read": cread, "stable": again == bytes}))
+    });
+    match r {
+        Ok(Ok(mut v)) => {
+            v["op"] = json!("image");
+            v["content"] = content.clone();
+            v["from_api"] = json!(from_api);
+            v
+        }
+        Ok(Err(e)) | Err(e) => json!({"op": "failed", "content": content, "why": e}),
+    }
+}
+
+fn format_record(out_path: &str, n: usize, maxcells: usize) {
+    let mut rng = Rng::new(seed_from_env() ^ 0xC01);
+    let mut out = NdWriter::create(out_path);
+    for i in 0..n {
+        let mc = if i % 10 == 9 { maxcells } else { 1 + (i % 12).min(maxcells) };
+        let content = random_content(&mut rng, mc, i % 3 != 0);
+        out.put(&format_event(&content, true));
+    }
+    out.finish();
+}
+
+fn dump(file: &str, endian: &str, out_path: &str) {
+    let bytes = std::fs::read(file).unwrap_or_else(|e| {
+        eprintln!("{}: {}", file, e);
+        std::process::exit(2)
+    });
+    let mut out = NdWriter::create(out_path);
+    let r = catch(|| BinArchive::from_bytes(&bytes, endian_of(&json!(endian))).map(|a| (project(&a, endian), a.serialize().map_err(|e| e.to_string()))));
+    match r {
+        Ok(Ok((content, again))) => out.put(&json!({"op": "file", "file": file, "content": content, "bytes": bytes,
+            "reserialized_equal": again.map(|b| b == bytes).unwrap_or(false)})),
+        other => out.put(&json!({"op": "failed", "file": file, "why": format!("{:?}", other.map(|x| x.map(|_| ()).map_err(|e| e.to_string())))})),
+    }
+    out.finish();
+}
 
 fn main() {
     install_panic_hook();
-    usage("mvh_bin: not implemented yet");
+    let args: Vec<String> = std::env::args().skip(1).collect();
+    let a: Vec<&str> = args.iter().map(|s| s.as_str()).collect();
+    match a.as_slice() {
+        ["format-replay", cases, out] => format_replay(cases, out),
+        ["format-record", out, n, maxcells] => format_record(out, n.parse().unwrap(), maxcells.parse().unwrap()),
+        ["dump", file, endian, out] => dump(file, endian, out),
+        _ => usage("mvh_bin format-replay|format-record|dump ..."),
+    }
+    let _ = (BinArchiveReader::new, BinArchiveWriter::new, Endian::Little);
 }
